@@ -21,7 +21,7 @@ def build(o):
             o.obligation_broken("cargo build of the broker harness against /repo", outc)
             ok = False
         core.ensure_makefile()
-        okb, outb, _ = core.coq_build(["Broker/Model.v"])
+        okb, outb, _ = core.coq_build(["Broker/Model.v", "Broker/GateSpec.v"])
         if not okb:
             o.obligation_broken("coq build of the executable broker model", outb)
             return False
